@@ -22,6 +22,9 @@ def dispatch(prop):
     if prop == "C06":
         from . import interest_check
         return interest_check.c06
+    if prop in ("C07", "C09", "C11"):
+        from . import envfull_check
+        return getattr(envfull_check, prop.lower())
     raise SystemExit("no check registered for %s" % prop)
 
 
